@@ -565,7 +565,10 @@ def main():
                        "model_says": model_output(P, small, workdir),
                        "seed": seed, "tier": tier,
                        "replay_cmd": "python3 bin/check.py %s --replay <this file>" % P.ID}
-            suffix = "" if (i in mon or getattr(P, "DISAGREE_IS_VIOLATION", False)) else " no-failing-input-found"
+            div = getattr(P, "DISAGREE_IS_VIOLATION", False)
+            if div and hasattr(P, "disagree_is_violation"):
+                div = P.disagree_is_violation(small)
+            suffix = "" if (i in mon or div) else " no-failing-input-found"
             violations.append((write_replay(P, payload["kind"], payload), suffix))
         for k in known:
             if k.get("property") == P.ID and k.get("status", "open") == "open":
